@@ -22,7 +22,7 @@ type keyHandle struct{ ks Str }
 const tinkSubtle = "github.com/tink-crypto/tink-go/v2/daead/subtle"
 
 func (m *Machine) protoCanon(v Value, t types.Type, depth int) Str {
-	if depth > 6 {
+	if depth > 16 {
 		panic(abort("proto.Marshal: nesting too deep"))
 	}
 	switch x := v.(type) {
@@ -109,6 +109,9 @@ func registerCrypto(e *Engine) {
 	}
 	in["github.com/tink-crypto/tink-go/v2/insecurecleartextkeyset.Read"] = func(m *Machine, fr *frame, a []Value) Value {
 		o, _ := a[0].(*Opaque)
+		if itf, ok := a[0].(Iface); ok {
+			o, _ = itf.v.(*Opaque)
+		}
 		if o == nil || o.kind != "keysetReader" {
 			panic(abort("insecurecleartextkeyset.Read on unmodelled reader"))
 		}
@@ -166,7 +169,7 @@ func registerCrypto(e *Engine) {
 	}
 	in["(*encoding/base64.Encoding).EncodeToString"] = func(m *Machine, fr *frame, a []Value) Value {
 		sl := a[1].(Slice)
-		if !stdEnc(m, a[0]) {
+		if !stdEnc(m, a[0]) || (m.job != nil && m.job.Params["realBase64"] == "yes") {
 			return realCode{}
 		}
 		if sl.rope == nil {
@@ -184,7 +187,7 @@ func registerCrypto(e *Engine) {
 	}
 	in["(*encoding/base64.Encoding).DecodeString"] = func(m *Machine, fr *frame, a []Value) Value {
 		s := argStr(a[1])
-		if _, ok := s.Const(); ok || s.b != nil || !stdEnc(m, a[0]) {
+		if _, ok := s.Const(); ok || s.b != nil || !stdEnc(m, a[0]) || (m.job != nil && m.job.Params["realBase64"] == "yes") {
 			return realCode{} // real code on concrete text / byte-level strings
 		}
 		t := s.Term()
@@ -219,6 +222,11 @@ func init() {
 	extraHarness = append(extraHarness, registerCrypto)
 	ufAxioms["b64"] = func(u *Term) []*Term {
 		return []*Term{TEq(TUF("unb64", SStr, u), u.args[0]), TUF("b64ok", SBool, u)}
+	}
+	// deterministic AEAD (SIV): decryption succeeds exactly when re-encrypting the result
+	// reproduces the ciphertext (the tag is a deterministic function of key, ad and plaintext)
+	ufAxioms["dec"] = func(u *Term) []*Term {
+		return []*Term{TImplies(TUF("decok", SBool, u.args[0], u.args[1], u.args[2]), TEq(TUF("enc", SStr, u.args[0], u, u.args[2]), u.args[1]))}
 	}
 	ufAxioms["enc"] = func(u *Term) []*Term {
 		return []*Term{
